@@ -105,7 +105,10 @@ def r_track(ctx):
         obj, val = [e.id for e in lp[0].target.elts]
         stores = [s for s in flow.stmts_of_block(lp[0]) if isinstance(s, ast.Assign) and isinstance(s.targets[0], ast.Attribute)
                   and s.targets[0].attr == "_dual_variable_value"]
-        ok2 = len(stores) == 2 and all(dotted(s.targets[0].value) == obj and dotted(s.value) == val for s in stores)
+        pc = flow.path_counts(lp[0].body, lambda n: False, lambda st: st in stores)
+        normal = pc.get("next", set()) | pc.get("continue", set())
+        ok2 = len(stores) >= 1 and all(dotted(s.targets[0].value) == obj and dotted(s.value) == val for s in stores) and normal == {1} \
+            and "break" not in pc and "return" not in pc
     ctx.ob("R-TRACK", "Wrapper.assign_dual_values::stores the paired value", ok2,
            "each tracked object stores the multiplier paired with it" if ok2 else "the stored multiplier is not the zipped value on both kinds", loc(fn, fn))
     ret = [r for r in ast.walk(fn) if isinstance(r, ast.Return)]
@@ -334,12 +337,28 @@ def _count_appends(stmt, name, ev, mult):
     for c in ast.walk(stmt):
         if isinstance(c, ast.Call) and call_name(c) == "append" and dotted(c.func.value) == name:
             n += 1
+    extra = Rat(0)
     if isinstance(stmt, ast.AugAssign) and isinstance(stmt.target, ast.Name) and stmt.target.id == name:
-        if isinstance(stmt.value, ast.List):
-            n += len(stmt.value.elts)
-        else:
-            raise AnalysisError("list extended by `%s`" % src(stmt.value))
-    return mult * Rat(n)
+        extra = _list_len(stmt.value, ev)
+    for c in ast.walk(stmt):
+        if isinstance(c, ast.Call) and call_name(c) == "extend" and dotted(c.func.value) == name and c.args:
+            extra = extra + _list_len(c.args[0], ev)
+    return mult * (Rat(n) + extra)
+
+
+def _list_len(v, ev):
+    """Symbolic length of a list literal or of a comprehension over range loops without filters."""
+    if isinstance(v, ast.List):
+        return Rat(len(v.elts))
+    if isinstance(v, ast.ListComp) and all(not g.ifs for g in v.generators):
+        tot = Rat(1)
+        for g in v.generators:
+            if isinstance(g.iter, ast.Call) and call_name(g.iter) == "range" and len(g.iter.args) == 1:
+                tot = tot * ev.ev(g.iter.args[0])
+            else:
+                raise AnalysisError("comprehension over `%s`" % src(g.iter))
+        return tot
+    raise AnalysisError("list extended by `%s`" % src(v)[:80])
 
 
 def _cursor_advance(body, cursor, temp, out, ev):
@@ -993,18 +1012,22 @@ def r_lmienc(ctx):
         if isinstance(r, ast.Call) and call_name(r) == "_expression_to_solver" and isinstance(r.args[0], ast.Subscript) and dotted(r.args[0].value) == psd \
                 and isinstance(r.args[0].slice, ast.Tuple):
             ridx = [src(x) for x in r.args[0].slice.elts]
-        loops = []
-        cur = common.stmt_of(e)
-        while True:
-            lp = flow.in_loop(cur)
-            if lp is None:
-                break
-            loops.append(lp)
-            cur = lp
-        ranges = sorted(src(l.iter) for l in loops)
+        loops = []       # (iterable, target name)
+        cur = e
+        filtered = False
+        while cur is not None and cur is not fn:
+            par = getattr(cur, "_parent", None)
+            if isinstance(par, ast.ListComp) and cur is par.elt:
+                for g in par.generators:
+                    loops.append((g.iter, g.target.id if isinstance(g.target, ast.Name) else None))
+                    filtered = filtered or bool(g.ifs)
+            if isinstance(par, ast.For) and any(x is cur for x in par.body):
+                loops.append((par.iter, par.target.id if isinstance(par.target, ast.Name) else None))
+            cur = par
+        ranges = sorted(src(it) for it, _ in loops)
         oke = dotted(e.left.value) == m and idx == ridx and len(idx) == 2 and idx[0] != idx[1] \
             and ranges == sorted(["range(%s.shape[0])" % psd, "range(%s.shape[1])" % psd]) \
-            and {l.target.id for l in loops if isinstance(l.target, ast.Name)} == set(idx) \
+            and {t for _, t in loops} == set(idx) and not filtered \
             and not flow.conditions_guarding(common.stmt_of(e), stop=fn)
     ctx.ob("R-LMIENC", "CvxpyWrapper.send_lmi_constraint_to_solver::entry equalities", oke,
            "M[i, j] == translation(entry (i, j)) for every (i, j) of the matrix" if oke else
@@ -1152,17 +1175,25 @@ def _run_index_program(fn, env, tril):
                 for v in range(*[iv(a) for a in s.iter.args]):
                     env[s.target.id] = v
                     run(s.body)
-            elif isinstance(s, ast.Assign) and isinstance(s.targets[0], ast.Name):
+            elif isinstance(s, ast.Assign) and isinstance(s.targets[0], ast.Name) and not (isinstance(s.value, ast.Subscript) and dotted(s.value.value) == tril):
                 if isinstance(s.value, ast.Call):
                     env[s.targets[0].id] = "matrix"
                 else:
                     env[s.targets[0].id] = iv(s.value)
             elif isinstance(s, ast.AugAssign) and isinstance(s.target, ast.Name) and isinstance(s.op, ast.Add):
                 env[s.target.id] = env[s.target.id] + iv(s.value)
-            elif isinstance(s, ast.Assign) and isinstance(s.targets[0], ast.Subscript) and isinstance(s.targets[0].slice, ast.Tuple) \
-                    and isinstance(s.value, ast.Subscript) and dotted(s.value.value) == tril:
-                a, b = [iv(x) for x in s.targets[0].slice.elts]
-                writes[(a, b)] = iv(s.value.slice)
+            elif isinstance(s, ast.Assign) and all(isinstance(t, ast.Subscript) and isinstance(t.slice, ast.Tuple) for t in s.targets):
+                if isinstance(s.value, ast.Subscript) and dotted(s.value.value) == tril:
+                    k = iv(s.value.slice)
+                elif isinstance(s.value, ast.Name) and isinstance(env.get(s.value.id), tuple) and env[s.value.id][0] == "tril":
+                    k = env[s.value.id][1]
+                else:
+                    raise AnalysisError("matrix entry assigned from `%s`" % src(s.value))
+                for t in s.targets:
+                    a, b = [iv(x) for x in t.slice.elts]
+                    writes[(a, b)] = k
+            elif isinstance(s, ast.Assign) and isinstance(s.targets[0], ast.Name) and isinstance(s.value, ast.Subscript) and dotted(s.value.value) == tril:
+                env[s.targets[0].id] = ("tril", iv(s.value.slice))
             elif isinstance(s, ast.Return):
                 return
             else:
@@ -1202,7 +1233,11 @@ def r_psdstore(ctx):
             good = len(st) == 1 and isinstance(st[0].value, ast.Call) and call_name(st[0].value) == "Expression" and is_const(get_arg(st[0].value, 0, "is_leaf"), False)
             if good:
                 dd = get_arg(st[0].value, 1, "decomposition_dict")
-                good = isinstance(dd, ast.Dict) and len(dd.keys) == 1 and is_const(dd.keys[0], 1) and src(dd.values[0]) == src(st[0].targets[0])
+                tgt_txt = src(st[0].targets[0])
+                val = dd.values[0] if isinstance(dd, ast.Dict) and len(dd.keys) == 1 else None
+                same = val is not None and (src(val) == tgt_txt or (isinstance(val, ast.Name) and any(
+                    isinstance(d, ast.Assign) and dotted(d.targets[0]) == val.id and src(d.value) == tgt_txt for d in flow.stmts_of(fn, ast.Assign))))
+                good = isinstance(dd, ast.Dict) and len(dd.keys) == 1 and is_const(dd.keys[0], 1) and same
             ok = good and all(isinstance(s, ast.Pass) for s in expr)
             if not ok:
                 msg = "a scalar entry c does not become the constant expression {1: c} in place (or Expression entries are altered)"
